@@ -284,6 +284,43 @@ def run_framers(case):
                     break
             sim.probe('sink_attached_mid_stream')
 
+        # ---- a sink that fails on some packets (an exception inside the host's handler): the parser contains it, and the packets
+        # that follow - in the same chunk or in later ones - are still delivered, in order
+        if not sim.violations and len(expected) >= 2:
+            for _ in range(3):
+                evaluations += 1
+                bad_idx = set(r.sample(range(len(expected)), r.randint(1, max(1, len(expected) // 3))))
+
+                class FailingSink:
+                    def __init__(self):
+                        self.got = []
+                        self.n = 0
+
+                    def on_packet(self, p):
+                        k = self.n
+                        self.n += 1
+                        if k in bad_idx:
+                            raise RuntimeError('sink failed on this packet')
+                        self.got.append(bytes(p))
+
+                fs = FailingSink()
+                parser = common.PacketParser(fs)
+                chunks = _chunk(stream, [r.randrange(1, n) for _ in range(r.randint(0, 4))]) if n > 2 else [stream]
+                escaped = 0
+                for ch in chunks:
+                    try:
+                        parser.feed_data(ch)
+                    except RuntimeError:
+                        escaped += 1  # whether the parser contains the sink's exception or passes it on is not judged; what it costs is
+                    except Exception as e:
+                        sim.violation_once('sink-exc', f'push-parser:raised-on-well-formed-stream:failing-sink:{type(e).__name__}', repr(e))
+                        break
+                want = [p for i, p in enumerate(expected) if i not in bad_idx]
+                if fs.got != want or fs.n != len(expected):
+                    sim.violation_once('sink-exc', f'push-parser:packets-lost-after-sink-exception:escaped={int(escaped > 0)}', f'sink was offered {fs.n} of {len(expected)} packets and kept {len(fs.got)} of {len(want)}; chunk sizes {[len(c) for c in chunks][:6]}')
+                    break
+            sim.fault('sink_raises_on_a_packet')
+
         # ---- two parsers alive at once (two transports in one process), their chunks interleaved: neither disturbs the other
         if not sim.violations and n >= 2:
             other = list(reversed(expected)) if len(expected) > 1 else [expected[0][:1] + expected[0][1:]]
